@@ -610,7 +610,8 @@ func (a *Array) PopIterate(fn ArrayPopIterationFunc) error {
 		}
 	}
 
-	return nil
+	// This array (a) is a parent updater's child element, notify parent to update.
+	return a.notifyParentIfNeeded()
 }
 
 // Slab operations (split root, promote child slab to root)
